@@ -183,6 +183,7 @@ cleanup_pthread:
 	sem_post(&logt_print_finished);
 	pthread_join(logt_thread_id, NULL);
 
+	wthread_should_exit = QB_FALSE;
 	wthread_active = QB_FALSE;
 	wthread_lock = logt_wthread_lock;
 	logt_wthread_lock = NULL;
